@@ -254,6 +254,7 @@ const (
 	sortHash = 0
 	sortLWW  = 1
 	sortFWW  = 2
+	sortCmp  = 4 // sorting.Compare as the log's ordering: equal clocks compare as 0, which the log's NoZeroes wrapper reports as an error
 	sortDist = 3 // a caller-supplied comparator that reports distances: only the sign of an EntrySortFn result is meaningful
 )
 
@@ -275,6 +276,8 @@ func pickSort(k int) iface.EntrySortFn {
 		return sorting.FirstWriteWins
 	case sortDist:
 		return distanceOrder
+	case sortCmp:
+		return sorting.Compare
 	}
 	return sorting.SortByEntryHash
 }
